@@ -80,6 +80,7 @@ type c20Run struct {
 	steps  []string
 	nMut   int
 	panics bool
+	stop   bool // the type of a value was corrupted through a documented back door: what follows is undefined
 }
 
 func newC20Run(ctx *Ctx) *c20Run {
@@ -190,6 +191,9 @@ func (r *c20Run) step(op *c20Op) bool {
 			}
 			r.ctx.Fail(f)
 			r.ctx.Tag("leak:" + f.Sig)
+			if op.name == "setElemType" || op.name == "mapPutType" {
+				r.stop = true
+			}
 		}
 	}
 	for i, f := range ag {
@@ -463,7 +467,7 @@ func (h *c20H) genOp(r *rand.Rand) *c20Op {
 
 func c20random(ctx *Ctx, steps int) {
 	r := newC20Run(ctx)
-	for tries := 0; len(r.wires) < steps && tries < steps*40 && !r.panics; tries++ {
+	for tries := 0; len(r.wires) < steps && tries < steps*40 && !r.panics && !r.stop; tries++ {
 		r.step(r.h.genOp(ctx.R))
 	}
 	r.finish()
